@@ -751,6 +751,10 @@ def absurd_table_probe(ctx):
 
 
 def run(ctx):
+    # domain errors stay domain errors whatever was refused before them in the same process
+    C.seam_check(ctx["report"], ctx["rundir"], "C16", wrappers=[],
+                 texts=["(-8)^(1/3)", "(-2)^0.5", "(-1/2)^(3/2)", "sqrt(-4)", "ln(-1)", "log(-8, 2)", "log(8, -2)", "log(0)", "ln(0)", "(-8.0)^(1/3)", "0^(-1)", "0^(-1/2)",
+                        "sqrt(-1/4)", "log2(-1)", "log10(0)", "tan(1)", "2^0.5", "(-8)^3", "(-8)^(-3)", "abs(-8)^(1/3)"])
     C.seam_check(ctx["report"], ctx["rundir"], "C16", wrappers=[],
                  pairs=[("abs(5!/(-2*3!))", "10"), ("abs(1/(-2*3!))", "1/12"), ("sqrt(abs(4!/(-1*3!)))", "2"), ("abs(7!/(-1*5!)) m", "42 m"), ("abs(-5!)", "120"), ("abs(5!/-3)", "40"),
                         ("abs(C(5,2)*-3)", "30"), ("abs(3!/(-1*4!))", "1/4"), ("floor(abs(5!/(-7*2!)))", "8"), ("sign(5!/(-2*3!))" if False else "abs(-2*5!)", "240"),
